@@ -184,7 +184,7 @@ def run(prop, tier, extra_args=(), hist_quick=240, hist_thorough=2400, ops=80, c
     results = []
     with cf.ThreadPoolExecutor(max_workers=core.NCPU) as ex:
         futs = [ex.submit(core.run_history_range, bins["vh_" + c.name], c.name, core.SEED, lo, hi, ["--ops", str(ops)] + list(extra_args),
-                          900, 8) for (c, lo, hi) in jobs]
+                          240 if tier == "quick" else 1200, 8) for (c, lo, hi) in jobs]
         for f in futs:
             results.append(f.result())
     return aggregate(prop, results, extra_args, crash_owner_fn, any_prop)
